@@ -27,6 +27,9 @@ pub const DL: u64 = EPOCH_NS + 5_000_000;
 /// the bound is about 4x that.
 pub const PROMPT_C: u64 = 8;
 
+/// Additive slack of the work-clock bound (comparisons).
+pub const WORK_SLACK: u64 = 4096;
+
 #[derive(Clone, Debug, Serialize, Deserialize, PartialEq)]
 pub enum Entry {
     /// algorithms::diff_deadline with a recording hook
@@ -797,7 +800,12 @@ impl C07 {
                             // the expiring probe + after it
                             let st_total = after_probe + run.cmps_at_probe.unwrap_or(0);
                             let after_true_expiry = st_total.saturating_sub(budget);
-                            let bound = 4 * (seq.n() + seq.m() + 4) as u64;
+                            // "a small constant multiple of N+M": an additive
+                            // constant is allowed so that an implementation
+                            // that checks the clock once per fixed amount of
+                            // work (say every 2048 cells) is not flagged on
+                            // small inputs
+                            let bound = 4 * (seq.n() + seq.m() + 4) as u64 + WORK_SLACK;
                             out.gauge(
                                 "work_clock_max_cmps_after_true_expiry_x1000_per_nm4",
                                 after_true_expiry * 1000 / (seq.n() + seq.m() + 4) as u64,
@@ -1184,8 +1192,8 @@ impl Prop for C07 {
         if entry_pick == 9 {
             // unrelated inputs, plain lookups, ordinary hasher
             let (lo, hi) = match tier {
-                Tier::Quick => (20, 400),
-                Tier::Thorough => (20, 1500),
+                Tier::Quick => (150, 500),
+                Tier::Thorough => (150, 1500),
             };
             let n = rng.range(lo, hi);
             let m = rng.range(lo, hi);
